@@ -69,32 +69,39 @@ ICChoices(vs) ==
     \cup { [ics |-> ICOne(vs, 1), icform |-> f] : f \in {"int", "undef"} }
     \cup { [ics |-> ICAll(vs), icform |-> f] : f \in {"float", "int", "undef"} }
 
-Mk(b, h, w, x, ic, r) ==
-    [bp |-> b, vars |-> BP(b), exo |-> ExoSpec(x.form, x.extra, h), ics |-> ic.ics,
-     icform |-> ic.icform, horizon |-> h, where |-> w, reduce |-> r]
+Mk(b, hw, x, ic, r) ==
+    [bp |-> b, vars |-> BP(b), exo |-> ExoSpec(x.form, x.extra, hw.h), ics |-> ic.ics,
+     icform |-> ic.icform, horizon |-> hw.h, where |-> hw.w, reduce |-> r, late |-> hw.late]
 
 (* Initial states are enumerated by quantification (building the set of all configurations  *)
 (* first and normalising it costs TLC far more than exploring it).                          *)
 StartWith(c) == /\ cfg = c /\ phase = S0.phase /\ vlist = S0.vars /\ deco = S0.deco
                 /\ horizon = S0.horizon /\ series = S0.series /\ tz = S0.tz /\ step = S0.step
-                /\ err = S0.err
+                /\ err = S0.err /\ smax = S0.smax
 
-HW(hs) == { [h |-> h, w |-> w] : h \in hs, w \in {"block", "solver"} } \cup { [h |-> 0, w |-> "default"] }
+(* (horizon, placement, late value): the late value is written to the solver attribute after *)
+(* parsing and is larger (h+1, h+2) or smaller (h-1) than the horizon of the block           *)
+HW(hs) == { [h |-> h, w |-> w, late |-> 0] : h \in hs, w \in {"block", "solver"} }
+          \cup { [h |-> 0, w |-> "default", late |-> 0] }
+          \cup { [h |-> h, w |-> w, late |-> h + d] : h \in hs, w \in {"late_ctor", "late_parse"}, d \in {1, 2} }
+          \cup { [h |-> h, w |-> w, late |-> h - 1] : h \in hs \ {0}, w \in {"late_ctor", "late_parse"} }
 
 (* quick: the rejected forms are not crossed with every initial-condition choice *)
 KeepQuick(c) == /\ ExoRejected(c) => (c.ics = << >> \/ (Len(c.ics) > 1 /\ c.icform = "float"))
                 /\ c.icform = "undef" => (c.exo.form = "list" /\ Len(c.exo.vals) = c.horizon + 1)
                 /\ ~c.reduce => c.icform # "int"
+                /\ IsLate(c) => (c.reduce /\ c.icform = "float" /\ (c.ics = << >> \/ Len(c.ics) > 1)
+                                 /\ c.late # c.horizon + 1)
 
 InitQuick ==
     \E b \in BPs, hw \in HW(0..3), x \in ExoQuick, r \in BOOLEAN :
         \E ic \in ICChoices(BP(b)) :
-            LET c == Mk(b, hw.h, hw.w, x, ic, r) IN KeepQuick(c) /\ StartWith(c)
+            LET c == Mk(b, hw, x, ic, r) IN KeepQuick(c) /\ StartWith(c)
 
 InitThorough ==
     \E b \in BPs, hw \in HW(0..5), x \in ExoThorough, r \in BOOLEAN :
         \E ic \in ICChoices(BP(b)) :
-            StartWith(Mk(b, hw.h, hw.w, x, ic, r))
+            LET c == Mk(b, hw, x, ic, r) IN (IsLate(c) => c.reduce) /\ StartWith(c)
 
 NoConfigs == {}
 
